@@ -249,6 +249,22 @@ def dependent_check(fn=None, bound_is_name=False):
 class Equals(ParametrizedDependentType):
     keyable_type = True
 
+    def _canonical(self):
+        # Literal[a, b] and Literal[b, a] are the same type
+        return sorted(
+            ((type(p).__name__, repr(p)) for p in self.parameters),
+        )
+
+    def __eq__(self, other):
+        return (
+            type(self) is type(other)
+            and self._canonical() == other._canonical()
+            and self.bound == other.bound
+        )
+
+    def __hash__(self):
+        return hash(tuple(self._canonical())) ^ hash(self.bound)
+
     def default_bound(self, *parameters):
         types = sorted({type(p) for p in parameters}, key=lambda t: t.__name__)
         return types[0] if len(types) == 1 else Union[tuple(types)]
